@@ -40,8 +40,18 @@ def dedup : List Nat → List Nat
   | [] => []
   | a :: l => if a ∈ dedup l then dedup l else a :: dedup l
 
-def upd {C α : Type} [DecidableEq C] (f : C → α) (c : C) (v : α) : C → α :=
-  fun c' => if c' = c then v else f c'
+/-- a finite partial map (the per-mailbox fields `poison`, `notify` of all mailboxes, keyed by the
+correlation ID); applied like a function, absent keys are `none`.  (A list rather than a closure
+so that the driver's cost per step does not grow with the age of the router.) -/
+structure Tab (C α : Type) where
+  l : List (C × α) := []
+
+def Tab.get {C α : Type} [DecidableEq C] (t : Tab C α) (c : C) : Option α := lookupE c t.l
+
+instance {C α : Type} [DecidableEq C] : CoeFun (Tab C α) (fun _ => C → Option α) := ⟨Tab.get⟩
+
+def upd {C α : Type} [DecidableEq C] (f : Tab C α) (c : C) (v : Option α) : Tab C α :=
+  ⟨v.toList.map (fun a => (c, a)) ++ f.l.filter (fun e => decide (e.1 ≠ c))⟩
 
 /-- which failure was latched in `fatal` -/
 inductive Fatal where
@@ -80,8 +90,8 @@ structure Config where
 structure State (C P : Type) where
   entries : List ((C × Nat) × P) := []
   buffered : Nat := 0
-  poison : C → Option Nat := fun _ => none
-  waiter : C → Option Waiter := fun _ => none
+  poison : Tab C Nat := {}
+  waiter : Tab C Waiter := {}
   fatal : Option Fatal := none
   /-- the reader goroutine has returned from `readLoop` -/
   stopped : Bool := false
@@ -233,6 +243,36 @@ def firstDeposit (cfg : Config) (tr : List (Step C P)) (cid : C) (id : Nat) : Op
     | .deliver sender c p => if sender = id ∧ c = cid ∧ id ∈ cfg.members then some p else none
     | _ => none
 
+/-! ### mailbox objects (`boxes : map[string]*mailbox`)
+
+Which keys the Go map `boxes` holds is not part of `State` (no result of `ReceiveFrom` depends on
+it); it is tracked beside the state by `boxesStep`, which mirrors the three sites of `router.go`
+that touch the map: `boxFor` in `deposit` (after the quorum filter, before anything else),
+`boxFor` in the first critical section of `receiveFrom` (after the `fatal` check), and the
+`delete` in the deferred section (`len(box.payloads) == 0 && box.poison == nil`). -/
+
+def hasEntries (s : State C P) (cid : C) : Bool := s.entries.any fun e => decide (e.1.1 = cid)
+
+def addBox (cid : C) (b : List C) : List C := if cid ∈ b then b else cid :: b
+
+/-- the key set of `boxes` after the step `st` taken in state `s` -/
+def boxesStep (cfg : Config) (s : State C P) (b : List C) : Step C P → List C
+  | .deliver sender cid _ => if s.stopped then b else if sender ∈ cfg.members then addBox cid b else b
+  | .attach cid _ =>
+    match s.fatal with
+    | some _ => b
+    | none => addBox cid b
+  | .detach cid =>
+    match s.waiter cid with
+    | some w =>
+      if w.phase = .returning ∧ hasEntries s cid = false ∧ s.poison cid = none then b.erase cid else b
+    | none => b
+  | _ => b
+
+/-- state and mailbox keys after a step sequence -/
+def runBoxes (cfg : Config) (tr : List (Step C P)) (sb : State C P × List C) : State C P × List C :=
+  tr.foldl (fun sb st => (step cfg sb.1 st, boxesStep cfg sb.1 sb.2 st)) sb
+
 /-- no `ReceiveFrom` on `cid` has collected yet ("each correlation identifier is used for one exchange") -/
 def noCollect (s : State C P) (cid : C) : Prop :=
   ∀ m, (cid, Result.complete m) ∉ s.log
@@ -275,9 +315,13 @@ structure L2 (C P : Type) where
   started : Bool := false
   active : List (Nat × C) := []
   results : List (Nat × Nat × Result P) := []   -- rid, index of the event, outcome; newest first
+  /-- keys of the Go map `boxes` (see `boxesStep`) -/
+  boxes : List C := []
+  /-- `(buffered, number of mailbox objects)` after every event; newest first -/
+  obs : List (Nat × Nat) := []
 
 def doStep (cfg : Config) (l : L2 C P) (st : Step C P) : L2 C P :=
-  { l with core := step cfg l.core st, steps := st :: l.steps }
+  { l with core := step cfg l.core st, steps := st :: l.steps, boxes := boxesStep cfg l.core l.boxes st }
 
 def isReturning (l : L2 C P) (cid : C) : Bool :=
   match l.core.waiter cid with
@@ -354,7 +398,9 @@ def event (cfg : Config) (k : Nat) (l : L2 C P) : Event C P → L2 C P
     pumpAll cfg k l1
 
 def runEvents (cfg : Config) (evs : List (Event C P)) : L2 C P :=
-  (evs.foldl (fun (acc : Nat × L2 C P) ev => (acc.1 + 1, event cfg acc.1 acc.2 ev)) (0, {})).2
+  (evs.foldl (fun (acc : Nat × L2 C P) ev =>
+    let l := event cfg acc.1 acc.2 ev
+    (acc.1 + 1, { l with obs := (l.core.buffered, l.boxes.length) :: l.obs })) (0, {})).2
 
 end Sched
 
